@@ -3,7 +3,7 @@ import operator
 from types import new_class
 from typing import Any, Dict, Optional, Set, Type, TypeVar
 
-from confectioner.templating import set_dotted_key
+from confectioner.templating import get_dotted_key, set_dotted_key
 
 from .types import Evaluatable, Options, Value
 
@@ -96,7 +96,7 @@ class _DatasetClassMixin:
 
         self._repr_options = {}
         for key in sorted(self.__class__.keys(options)):  # type: ignore [attr-defined]
-            value = options.get(key)
+            value = get_dotted_key(key, options)
             set_dotted_key(key, value, self._repr_options)
 
     def __repr__(self):
